@@ -157,7 +157,7 @@ func (sh *shadow) apply(st Step) {
 	case "transfer":
 		cl := sh.classes[st.C]
 		o, ok := sh.owner[[2]int{st.C, st.T}]
-		if cl == nil || !ok || o != st.S || st.R < 0 || !validData(st.D, true) {
+		if cl == nil || !ok || o != st.S || st.R < 0 || st.U == -1 || !validData(st.D, true) {
 			return
 		}
 		if cl.ur && !(st.N == 1 && st.U == 1 && st.H == 1 && st.D == 1) {
